@@ -178,5 +178,8 @@ Example C13_hypotheses_satisfiable :
     = Ok (VStruct [VStr [97]; VNull; VInt 1]).
 Proof.
   repeat match goal with |- _ /\ _ => split end; try reflexivity; try (vm_compute; congruence).
-  repeat constructor; unfold flat_entry; cbn; try (left; reflexivity); right; repeat split; lia.
+  { unfold in_int64, min_int64, two63. lia. }
+  constructor; [right; cbn; repeat split; lia|].
+  constructor; [left; reflexivity|].
+  constructor; [right; cbn; repeat split; lia|constructor].
 Qed.
